@@ -13,7 +13,7 @@ LOG = math.log
 INF = float("inf")
 
 DEFAULTS = dict(fam="S", ne=False, avoid=False, max_dist=None, max_dist_init=None, min_prob_norm=None,
-                obs_noise=1.0, obs_noise_ne=None, dist_noise=None, dist_noise_ne=None, width=None, ne_factor=0.75)
+                obs_noise=1.0, obs_noise_ne=None, dist_noise=None, dist_noise_ne=None, width=None, ne_factor=0.75, maxnb=None)
 
 
 def norm_cfg(cfg):
